@@ -70,7 +70,13 @@ fn main() -> Result<(), String> {
 
     // TODO: should introduce a config object to gather options on the CLI etc.
     let max_drift_ppb = match args.max_drift_rate {
-        Some(rate) => rate * 1000,
+        Some(rate) => rate.checked_mul(1000).ok_or_else(|| {
+            format!(
+                "The max drift rate of {} ppm cannot be represented in ppb, the maximum is {} ppm",
+                rate,
+                u32::MAX / 1000
+            )
+        })?,
         None => {
             warn!("Using the default max drift rate of 1PPM, which is likely wrong. \
                   Update chrony configuration and clockbound to a value that matches your hardware.");
